@@ -29,6 +29,7 @@ def run(ctx):
     r = rng("c10")
     reqs, exp = [], []
     nsweep = 0
+    qeff_min, qeff_n = float('inf'), 0
     with warnings.catch_warnings():
         warnings.simplefilter("ignore")
         np.seterr(all="ignore")
@@ -51,6 +52,16 @@ def run(ctx):
                 else:
                     t = tup(comp[f"{name}_lnt"]["tree"])
                     env = auto_env(t, o, args={"lnk": lnk})
+                    if name == "EH_NoBAO":
+                        # hypothesis of the Lean theorem EH_NoBAO_lnT_nonpos: q_eff >= 0 (same sub-term extraction as `ehQ`)
+                        try:
+                            qt = t[1][2][2][1][2] if (t[0] == "log" and t[1][0] == "div" and t[1][2][0] == "add" and t[1][2][2][0] == "mul" and t[1][2][2][1][0] == "mul") else None
+                        except Exception:
+                            qt = None
+                        if qt is not None:
+                            for i in range(len(lnk)):
+                                qv = ev_py(qt, {kk: (vv[i] if np.ndim(vv) else vv) for kk, vv in env.items()}, lambda f, a: float("nan"), [])
+                                qeff_min = min(qeff_min, float(qv)); qeff_n += 1
                     reqs.append((f"Transfer/{name}_lnt", len(got), env, []))
                     exp.append((name, got, {"Om0": Om0, "h": float(cosmo.h), "params": params, "lnk": lnk.tolist()}, "gen"))
                 if name in ("BBKS", "BondEfs"):
@@ -154,7 +165,10 @@ def run(ctx):
         "rule": "random cosmologies (Om0, Ob0/Om0<=0.5, H0, Tcmb0) and +-20% overrides of one model parameter; k log-uniform in [1e-8,1e5]; each analytic model: real vs generated term (and vs spec term for BBKS/BondEfs), array vs element-by-element vs shuffled vs descending, 400-point sweeps; table models with inside/outside ranges and call sequences; 8 one- and two-sided k ranges for the normalisation constant",
         "gen_disagreements": nbad["gen"], "spec_disagreements": nbad["spec"], "samples": [{"model": e[0], "case": e[2], "impl": e[1][:2].tolist()} for e in exp[:2]],
         "search": "sweeps and sequences on the real models",
+        "EH_NoBAO_q_eff_hypothesis": {"evaluated": qeff_n, "min_q_eff": (qeff_min if qeff_n else None)},
     }
+    if qeff_n and not qeff_min >= 0:
+        out["broken"].append({"kind": "hypothesis", "what": f"hypothesis q_eff >= 0 of theorem EH_NoBAO_lnT_nonpos is not met in the sampled domain (min {qeff_min})"})
     return out
 
 
